@@ -60,7 +60,8 @@ impl<F: Fn(u64) -> usize> Iterator for FindChangePoints<F> {
             if new_val != self.prev_value {
                 break;
             }
-            step *= 2;
+            // no change point within reach: stop instead of overflowing
+            step = step.checked_mul(2)?;
         }
 
         // Binary search in the last exponential step to find exact change point
